@@ -386,6 +386,25 @@ def add_trivia(rng, text):
     return "".join(out)
 
 
+PAIRS = [
+    ("single-use function around an annotated sub-expression under an annotated declaration",
+     '# description: "some record"\nlet r = { \'id int } `title: "Record"`;\nres /records on get -> <r>;\n',
+     'let wrap x = x;\n# description: "some record"\nlet r = wrap ({ \'id int } `title: "Record"`);\nres /records on get -> <r>;\n'),
+    ("single-use function around an annotated sub-expression used with a use-site annotation",
+     'let r = { \'id int } `title: "Record"`;\nres /records on get -> <r `description: "use"`>;\n',
+     'let wrap x = x;\nlet r = wrap ({ \'id int } `title: "Record"`);\nres /records on get -> <r `description: "use"`>;\n'),
+    ("parentheses around annotated right-hand sides",
+     '# description: "d"\nlet day = str `format: "date"`;\nlet op = get -> <day>;\nres /d on op;\n',
+     '# description: "d"\nlet day = (str `format: "date"`);\nlet op = (get -> <(day)>);\nres /d on op;\n'),
+    ("naming a closed sub-expression",
+     'res /n on get -> <{ \'a { \'b num `minimum: 1` } }>;\n',
+     'let inner = { \'b num `minimum: 1` };\nres /n on get -> <{ \'a inner }>;\n'),
+    ("permuting declarations",
+     'let a = { \'x b };\nlet b = num;\nlet f y = [y];\nres /p on get -> <f a>;\n',
+     'let f y = [y];\nlet b = num;\nlet a = { \'x b };\nres /p on get -> <f a>;\n'),
+]
+
+
 def check(ctx):
     ctx.proof = core.proof_stage("C05", thorough=ctx.thorough)
     ok, out = core.ensure_harness()
@@ -409,6 +428,17 @@ def check(ctx):
             ctx.violation("rewriting changes the outcome", v["input"], "same", "different")
         ctx.cov["evaluations"] = 1
         return core.finish(ctx)
+    # hand-written pairs: a program and the program after one rewrite step of the property statement
+    for what, before, after in PAIRS:
+        a, b = progs.compile_many([{"mods": {MAIN: before}, "main": MAIN}, {"mods": {MAIN: after}, "main": MAIN}])
+        ctx.cov["evaluations"] += 1
+        inp = {"original": {"mods": {MAIN: before}, "main": MAIN}, "rewritten": {"mods": {MAIN: after}, "main": MAIN}, "steps": [what]}
+        if a.get("status") != "ok":
+            ctx.broken.append("a corpus program of the check is rejected: %s: %s" % (str(a.get("msg"))[:100], before[:200]))
+        elif b.get("status") != "ok":
+            ctx.violation("a meaning-preserving rewrite makes an accepted program rejected (%s)" % what, inp, "accepted", b.get("msg"))
+        elif canon.canon_doc(a["doc"]) != canon.canon_doc(b["doc"]):
+            ctx.violation("a meaning-preserving rewrite changes the emitted document (%s)" % what, inp, "the same document", "a different document")
     n = 4500 if ctx.thorough else 300
     ps = progs.gen_programs(ctx, n)
     # the evaluator tie (C05_alpha_evaluation is a theorem about Model/Eval.v)
